@@ -184,6 +184,9 @@ func genCommon(t *rapid.T, mode string) Case {
 	c.Rich = rapid.IntRange(0, 2).Draw(t, "rich") == 2
 	c.Named = rapid.IntRange(0, 3).Draw(t, "named") == 3
 	c.Used = rapid.IntRange(0, 2).Draw(t, "used") == 0
+	if rapid.IntRange(0, 3).Draw(t, "writer-to-source-fails") == 0 {
+		c.SrcFail = 1 + rapid.IntRange(0, len(txt)).Draw(t, "source-fails-after")
+	}
 	return c
 }
 
@@ -444,6 +447,10 @@ func Classify(c Case) (bool, []string) {
 	}
 	if c.Chunk > 0 {
 		add("variant:chunked-stream")
+	}
+	if c.SrcFail > 0 && (c.Mode == "produce" && c.Kind == kFrom || c.Mode == "agree") {
+		add("io.WriterTo source reports an error")
+		nt = true
 	}
 	return nt, labels
 }
